@@ -78,7 +78,8 @@ def run_tlc(module, cfg, workdir, workers=16, env=None, extra=(), timeout=3600,
     """Run TLC on spec/<module>.tla with spec/<cfg>.  Never raises on a property
     violation; the caller decides what a non-zero return code means."""
     os.makedirs(workdir, exist_ok=True)
-    meta = os.path.join(workdir, "meta_%s_%d" % (module, int(time.time() * 1000) % 100000000))
+    meta = os.path.join(workdir, "meta_%s_%d_%d_%s" % (module, os.getpid(), int(time.time() * 1000) % 100000000,
+                                                       os.urandom(3).hex()))
     jopts = ["-XX:+UseParallelGC", "-Xmx" + heap, "-Djava.io.tmpdir=" + workdir]
     if deque:
         jopts.append("-Dtlc2.tool.queue.IStateQueue=StateDeque")
